@@ -29,6 +29,7 @@ package grpc
 //@ func EncodeError
 //@   params err
 //@   property C18
+//@   locals st:*status.Status ok:bool s:*status.Status err#2:error gerr:*goa.ServiceError code:codes.Code
 //@   requires err != nil
 //@   requires asSE(err) != 0 ==> allocated(ptr(*goa.ServiceError, asSE(err)))
 //@   requires !(typeIs(err, *goa.ServiceError) && asSE(err) == 0)
